@@ -305,6 +305,15 @@ fn directed_programs() -> Vec<Program> {
                 ("CD", IdKind::Struct, None), ("dv", IdKind::Member, None), ("h", IdKind::Function, None), ("entry", IdKind::Function, None), ("x", IdKind::Param, None),
             ],
         ),
+        (
+            // locals only: a local the exporters have to rename (its spelling is reserved in one target) next to constant and
+            // ordinary locals spelled like the names the exporters generate for it
+            "int @f@(int @x@)\n{\n    const int @lc@ = 3;\n    int @lr@ = @x@ + 2;\n    const float @ld@ = 1.5f;\n    int @le@ = @lr@ * 2;\n    @lr@ += @lc@;\n    return @lr@ * 1000 + @lc@ * 100 + (int)(@ld@ * 4.0f) * 10 + @le@;\n}\nint @entry@(int @y@)\n{\n    return @f@(@y@) + @f@(@y@ + 1);\n}\n",
+            vec![
+                ("f", IdKind::Function, None), ("x", IdKind::Param, None), ("lc", IdKind::Local, None), ("lr", IdKind::Local, None), ("ld", IdKind::Local, None), ("le", IdKind::Local, None),
+                ("entry", IdKind::Function, None), ("y", IdKind::Param, None),
+            ],
+        ),
     ];
     let mut out = Vec::new();
     for (text, ids) in specs {
@@ -368,6 +377,27 @@ fn make_case(seed: u64, index: u64) -> Case {
                 let i = *rng.pick(&candidates);
                 if !s1.names.iter().any(|n| n == spelling) {
                     s1.names[i] = spelling.to_string();
+                    s1.adversarial.push(i);
+                }
+            }
+        }
+        if let Some(lr) = program.idents.iter().position(|i| i.name == "dlr") {
+            // the renamed local and the generated-looking spellings around it (constant locals included)
+            const WORDS: &[&str] = &["vector", "matrix", "string", "shared", "pass", "technique", "texture", "sampler", "kernel", "device", "constant", "thread", "fragment", "vertex", "half", "fixed"];
+            let w = rng.pick(WORDS).to_string();
+            let mut forms = vec!["_0", "_1", "_0_0"];
+            rng.shuffle(&mut forms);
+            let free = !s1.names.iter().any(|n| n.starts_with(&w));
+            if free {
+                s1.names[lr] = w.clone();
+                s1.adversarial.push(lr);
+            }
+            for (k, other) in ["dlc", "dld", "dle"].iter().enumerate() {
+                if !free || (k > 0 && rng.chance(1, 3)) {
+                    continue;
+                }
+                if let Some(i) = program.idents.iter().position(|id| id.name == *other) {
+                    s1.names[i] = format!("{}{}", w, forms[k]);
                     s1.adversarial.push(i);
                 }
             }
